@@ -543,3 +543,27 @@ def rule_rf_json(prog: Program, report: Report) -> None:
                         report.violate("RF-json", fn, v, f"JSON key {kt} aliases a live object", f"{w}; the JSON form must be plain data that does not alias live attribute objects (deep-copy it, as Node.to_json and Mark.to_json do)", what="JSON values are immutable, deep-copied or produced by to_json")
     report.count("RF-json values", n)
     report.expect_at_least("RF-json", "JSON values", n, 30)
+
+
+RETURNS_FRESH = {
+    "prosemirror/model/schema.py::compute_attrs": "node and mark attrs are a dict built here, never the caller's object (callers reuse and edit the dict they passed)",
+}
+
+
+def rule_rf_returns_fresh(prog: Program, report: Report) -> None:
+    """Functions whose contract is to hand out a container of their own."""
+    report.rules.append("RF-fresh")
+    rfresh = compute_returns_fresh(prog)
+    fr = Fresh(prog, rfresh)
+    for key, why in RETURNS_FRESH.items():
+        fn = prog.func(key)
+        rets = [r for r in walk_own(fn.node) if isinstance(r, ast.Return) and r.value is not None]
+        if not rets:
+            raise AnalysisError(f"RF-fresh: {key} has no return")
+        for r in rets:
+            v = r.value
+            ok = fr.fresh_expr(v, fn) if not isinstance(v, ast.Name) else fr.fresh_local(fn, v.id, site=r)
+            if ok:
+                report.ob("RF-fresh", key, f"`return {src(v)[:40]}`: a container created in this activation")
+            else:
+                report.violate("RF-fresh", fn, r, f"`return {src(v)[:50]}` hands out an object the function did not create", f"{why}; `{src(v)[:40]}` is a parameter or another object's container", what=f"{fn.qual} returns a fresh container")
